@@ -29,6 +29,15 @@
       (ite (and ((_ is vref) c) (= (rty c) TY_binary))
            (ite (= (select bop (rval c)) #x0000000000000000) (and (psat (select bc1 (rval c)) d) (psat (select bc2 (rval c)) d)) true)
            (and ((_ is vref) c) (= (rty c) TY_not)))))
+; cshape(c): the tree is structurally complete (children present, operands typed) - what the normalising visitor
+; needs before literals are canonical; cwf(c) implies it by definition
+(declare-fun cshape (Val) Bool)
+; statefun: cshape!def F_query_BinaryCriteria_C1 F_query_BinaryCriteria_C2 F_query_NotCriteria_C F_query_UnaryCriteria_OpType F_query_UnaryCriteria_Value
+(define-fun cshape!def ((bc1 (Array Ref Val)) (bc2 (Array Ref Val)) (nc (Array Ref Val)) (uop (Array Ref (_ BitVec 64))) (uv (Array Ref Val)) (c Val)) Bool
+  (and (isCriteria c)
+       (ite (= (rty c) TY_binary) (and (cshape (select bc1 (rval c))) (cshape (select bc2 (rval c))))
+       (ite (= (rty c) TY_not) (cshape (select nc (rval c)))
+            (validUnary uop uv (rval c))))))
 (define-fun isFlatten ((v Val)) Bool (and ((_ is vref) v) (= (rty v) TY_vflatten)))
 (define-fun isSelect ((v Val)) Bool (and ((_ is vref) v) (= (rty v) TY_vselect)))
 (define-fun isRangeV ((v Val)) Bool (and ((_ is vref) v) (= (rty v) TY_vrange)))
